@@ -116,14 +116,24 @@ EXCLUDED_FORMS = [
     {"names": ["Sl"], "type": ("s", ("b", "string")), "tag": "-"},
     {"names": ["If"], "type": ("i",), "tag": "-"},
     {"names": ["lower"], "type": ("s", ("p", ("b", "float64"))), "tag": "x"},
+    # an embedded struct that is itself excluded by the dash tag (its declaration is added with it)
+    {"names": [], "type": ("b", "Audit"), "tag": "-",
+     "extra_decls": [("Audit", [{"names": ["Who"], "type": ("b", "string"), "tag": None}, {"names": ["Rev"], "type": ("b", "int32"), "tag": None}])]},
+    # an embedded struct of unexported type
+    {"names": [], "type": ("b", "hiddenBase"), "tag": None,
+     "extra_decls": [("hiddenBase", [{"names": ["Q"], "type": ("b", "int64"), "tag": None}])]},
 ]
 
 
 def decorate(decls, tname, pos, field):
     out = copy.deepcopy(decls)
+    f = {k: v for k, v in copy.deepcopy(field).items() if k != "extra_decls"}
     for i, (n, fs) in enumerate(out):
         if n == tname:
-            fs.insert(min(pos, len(fs)), copy.deepcopy(field))
+            fs.insert(min(pos, len(fs)), f)
+    for d in field.get("extra_decls", []):
+        if d[0] not in [n for n, _ in out]:
+            out.append(copy.deepcopy(d))
     return out
 
 
